@@ -308,11 +308,17 @@ def clock_hook(state):
                     return ok(('ts', 'issued%d' % state['n']))
                 if seg == 'recv':
                     m = interp.deref_all(args[1])
+                    # the clock may refuse a foreign stamp (too far ahead of the wall clock, counter exhausted): it is then unchanged
+                    if state.get('recv_may_fail') and interp.choose('recv-refuses'):
+                        world.trace.append(('refused', m[1] if m and m[0] == 'ts' else m))
+                        return err(('opaque', 'clock-error'))
                     world.trace.append(('merge', m[1] if m and m[0] == 'ts' else m))
                     return ok(('ts', 'merged'))
                 if seg in ('counter', 'node', 'seconds', 'fractional', 'as_u64'):
                     return ('int', None)
                 raise Unmodelled('clock state used through HLCTimestamp::%s' % seg)
+            if seg in ('now', 'new', 'from_u64', 'from_datacake_timestamp') and (a0 is None or a0[0] not in ('clock', 'ts')):
+                return ('ts', 'a stamp built by HLCTimestamp::%s' % seg)       # some stamp — not the clock the actor was started with
             if a0 is not None and a0[0] == 'ts':
                 if seg in ('counter', 'node', 'seconds', 'fractional', 'as_u64'):
                     return ('int', None)
@@ -374,7 +380,7 @@ def check_clock_actor(ctx, facts, rule):
 
         def run(choices):
             ch = Chan([event('get', 'tx1'), event('reg', 'r1'), event('get', 'tx2'), event('reg', 'r2')])
-            state = {'n': 0}
+            state = {'n': 0, 'recv_may_fail': True}
             world = World(hooks=[clock_hook(state)])
 
             def leaf(ty):
@@ -389,21 +395,33 @@ def check_clock_actor(ctx, facts, rule):
         results = absint.explore(run)
     except (Unmodelled, absint.NeedChoice, IndexError, TypeError, KeyError, AttributeError) as e:
         return _fallback(ctx, rule, e)
-    want = [('issue', 1), ('reply', 'tx1', ('ts', 'issued1')), ('merge', 'r1'), ('issue', 2), ('reply', 'tx2', ('ts', 'issued2')), ('merge', 'r2')]
+    want0 = [('issue', 1), ('reply', 'tx1', ('ts', 'issued1')), ('merge', 'r1'), ('issue', 2), ('reply', 'tx2', ('ts', 'issued2')), ('merge', 'r2')]
+    want = want0
     bad = []
     for log, res in results:
         if res and res[0] == 'panic':
             continue
         trace, left = res
-        got = [e for e in trace if e[0] in ('issue', 'reply', 'merge', 'clock-replaced-by')]
-        if got != want or left:
+        got = [e for e in trace if e[0] in ('issue', 'reply', 'merge', 'refused', 'clock-replaced-by')]
+        # a stamp the clock refused is not merged — and nothing else changes: the clock keeps issuing from its own state
+        refusals = [val for lab, val in log if lab == 'recv-refuses']
+        wantp, ri = [], 0
+        for e in want0:
+            if e[0] == 'merge':
+                wantp.append(('refused', e[1]) if ri < len(refusals) and refusals[ri] else e)
+                ri += 1
+            else:
+                wantp.append(e)
+        if got != wantp or left:
+            want = wantp
             bad.append((log, got, left))
     site_ = '%s:%s' % (R.file, R.line)
     ctx.ob(rule, 'actor-trace', bool(results) and not bad, site_,
            'for the queue [Get, Register r1, Get, Register r2] the clock actor issues a stamp per Get and answers exactly that stamp, merges every registered stamp, in queue order, '
            'and consumes every event (%d resolution(s) of its internal branches)' % len(results) if results and not bad else
-           'for the queue [Get(tx1), Register(r1), Get(tx2), Register(r2)] the clock actor does %s%s — expected: issue, reply(tx1, issued stamp), merge r1, issue, reply(tx2, issued stamp), merge r2' % (
-               bad[0][1] if bad else 'nothing', (' and leaves %d event(s) unconsumed' % len(bad[0][2])) if bad and bad[0][2] else ''),
+           'for the queue [Get(tx1), Register(r1), Get(tx2), Register(r2)] the clock actor does %s%s — expected: %s' % (
+               bad[0][1] if bad else 'nothing', (' and leaves %d event(s) unconsumed' % len(bad[0][2])) if bad and bad[0][2] else '',
+               ', '.join('%s %s' % (e[0], e[1]) for e in want) + (' (a stamp the clock refuses leaves the clock as it was)' if any(e[0] == 'refused' for e in want) else '')),
            witness={'expected': [str(x) for x in want], 'got': [str(x) for x in (bad[0][1] if bad else [])]})
     return (R, reach)
 
